@@ -66,6 +66,28 @@ def solve_obligation(o, timeout_s=10, dump_dir=None, inputs=None,
         for depth in (1, 2):
             cands.append(('relevant-hyps(depth %d)' % depth,
                           relevant_hyps(o.hyps, o.goal, depth)))
+        # a conjunctive goal: each conjunct from the hypotheses that speak about it
+        conj, todo = [], [o.goal]
+        while todo:
+            x = todo.pop()
+            if z3.is_and(x): todo.extend(x.children())
+            else: conj.append(x)
+        if len(conj) > 1 or True:
+            ok = True
+            for gpart in conj:
+                sub = focused_hyps(o.hyps, gpart, getattr(o, 'n_axioms', 0))
+                if sub is None:
+                    ok = False; break
+                sp = _solver(int(min(timeout_s, 4) * 1000))
+                for a in C.str_axioms(): sp.add(a)
+                for h in sub: sp.add(h)
+                sp.add(z3.Not(gpart))
+                if sp.check() != z3.unsat:
+                    ok = False; break
+            if ok:
+                r = z3.unsat
+                strategy = 'focused-hyps per conjunct (%d conjuncts)' % len(conj)
+                cands = []
         for label, sub in cands:
             if sub is None or len(sub) == len(o.hyps):
                 continue
@@ -79,9 +101,57 @@ def solve_obligation(o, timeout_s=10, dump_dir=None, inputs=None,
                 strategy = '%s: %d of %d hypotheses' % (
                            label, len(sub), len(o.hyps))
                 break
+    cvc5_early = None
     if r == z3.unknown:
-        r = s.check()
+        # the full attempt: z3 with every hypothesis, and cvc5 on the dumped
+        # query at the same time (whoever answers first decides; they never
+        # disagree on a definite answer, an `unknown` of one is not an answer)
+        proc = None
+        if use_cvc5 and smt2 and o.kind != 'canary':
+            try:
+                proc = subprocess.Popen(['/usr/bin/cvc5', '--tlimit=%d' % int(timeout_s * 1000),
+                                         '--lang=smt2', smt2], stdout=subprocess.PIPE,
+                                        stderr=subprocess.DEVNULL, text=True)
+            except Exception:
+                proc = None
+        if proc is None:
+            r = s.check()
+        else:
+            import threading
+            box = []
+            th = threading.Thread(target=lambda: box.append(s.check()))
+            th.start()
+            while th.is_alive():
+                th.join(0.05)
+                if th.is_alive() and proc.poll() is not None:
+                    out = (proc.stdout.read() or '').strip().split('\n')[0]
+                    if out in ('sat', 'unsat'):
+                        cvc5_early = out
+                        try: s.ctx.interrupt()
+                        except Exception: pass
+                        th.join()
+                    break
+            th.join()
+            r = box[0] if box else z3.unknown
+            if proc.poll() is None:
+                if r in (z3.sat, z3.unsat):
+                    proc.kill()
+                else:
+                    try:
+                        out = (proc.communicate(timeout=timeout_s + 5)[0] or '').strip().split('\n')[0]
+                        if out in ('sat', 'unsat'): cvc5_early = out
+                    except Exception:
+                        proc.kill()
+            elif cvc5_early is None:
+                out = (proc.stdout.read() or '').strip().split('\n')[0]
+                if out in ('sat', 'unsat'): cvc5_early = out
+            if cvc5_early == 'unsat' and r != z3.sat:
+                r = z3.unsat
+                strategy = 'cvc5'
+            use_cvc5 = use_cvc5 and cvc5_early is None and False
     o.backend = 'z3-%s' % z3.get_version_string()
+    if strategy == 'cvc5':
+        o.backend = 'cvc5-1.0.3'
     o.strategy = strategy
     if r == z3.unsat:
         o.status = 'discharged'
@@ -102,7 +172,9 @@ def solve_obligation(o, timeout_s=10, dump_dir=None, inputs=None,
             o.backend += ' (unknown: not refuted)'
             o.time_s = time.time() - t0
             return o
-        if use_cvc5 and smt2:
+        if cvc5_early == 'sat':
+            o.status, o.backend = 'failed', 'cvc5-1.0.3'
+        elif use_cvc5 and smt2:
             r2 = run_cvc5(smt2, timeout_s)
             if r2 == 'unsat':
                 o.status, o.backend = 'discharged', 'cvc5-1.0.3'
@@ -155,6 +227,53 @@ def symbols(e):
             todo.extend(x.children())
     _sym_cache[k] = out
     return out
+
+
+_DEF_PREFIX = ('slice!', 'cat!', 'comp!', 'dcomp!', 'dlast!', 'set!', 'setupd!', 'sorted!', 'perm!', 'pinv!',
+               'keys!', 'values!', 'items!', 'removed!', 'fidx!', 'fpos!')
+
+
+def focused_hyps(hyps, goal, n_axioms=0):
+    '''the hypotheses that speak only about what the goal speaks about: start
+    from the goal's symbols, close them under the definitional axioms of the
+    derived values among them (hyps[:n_axioms]: concatenations, comprehensions,
+    sorted copies ..: an axiom about a derived value the set mentions brings in
+    what that value is derived from), keep a quantified hypothesis (conjunct) iff
+    all its symbols are in that set'''
+    from .symexec import has_quant
+    rel = set(symbols(goal))
+    if not rel:
+        return None
+    axs = [(h, symbols(h)) for h in hyps[:n_axioms]]
+    changed = True
+    while changed:
+        changed = False
+        for h, hs in axs:
+            if not hs <= rel and any(n.startswith(_DEF_PREFIX) for n in hs & rel):
+                rel |= hs
+                changed = True
+    flat = []
+    for h in hyps:
+        todo = [h]
+        while todo:
+            x = todo.pop()
+            if z3.is_and(x): todo.extend(x.children())
+            else: flat.append(x)
+    # bridges: a fact that relates exactly two values (x == y, element-wise
+    # equality of two lists ..) brings in the other one
+    fs = [(h, symbols(h)) for h in flat]
+    for _ in range(2):
+        for h, hs in fs:
+            if len(hs) == 2 and len(hs & rel) == 1:
+                rel |= hs
+        changed = True
+        while changed:
+            changed = False
+            for h, hs in axs:
+                if not hs <= rel and any(n.startswith(_DEF_PREFIX) for n in hs & rel):
+                    rel |= hs
+                    changed = True
+    return [h for h, hs in fs if not has_quant(h) or (hs and hs <= rel)]
 
 
 def relevant_hyps(hyps, goal, depth):
